@@ -16,6 +16,7 @@ mod c03;
 mod c07;
 mod build_checks;
 mod c16;
+mod c16dyn;
 mod c11;
 mod c12;
 mod c10;
